@@ -132,7 +132,7 @@ def run(ctx):
         total += n
     except Exception as ex:
         ctx.need(False, 'USBIsochronousInEndpoint could not be analysed: %s' % ex)
-    ctx.need(total >= 20, 'action sites checked (%d)' % total)
+    ctx.need(total >= 14, 'action sites checked (%d)' % total)       # 20+ on the tree the rule was written against; a vacuity guard, not a layout rule
     # --- the multiplexer broadcasts and ORs
     mux = ctx.ir('USBEndpointMultiplexer', 'usb2.endpoint')
     for fld in ('endpoint', 'new_token', 'is_in', 'is_out', 'ready_for_response'):
